@@ -1,7 +1,7 @@
 """Property registry: which contract modules serve which property, and what
 each claim leaves unverified (text copied into every evidence file)."""
 
-ALL_MODULES = ["contracts.c17", "contracts.c12", "contracts.c13", "contracts.c18", "contracts.c09", "contracts.c05", "contracts.c16", "contracts.c04", "contracts.c02", "contracts.c11", "contracts.c19", "contracts.c03", "contracts.c07"]
+ALL_MODULES = ["contracts.c17", "contracts.c12", "contracts.c13", "contracts.c18", "contracts.c09", "contracts.c05", "contracts.c16", "contracts.c04", "contracts.c02", "contracts.c11", "contracts.c19", "contracts.c03", "contracts.c07", "contracts.c06"]
 
 SPECS = {
     "C17": {
@@ -94,5 +94,12 @@ SPECS = {
         "level_note": "These obligations are necessary conditions of 'bodies are shared only when equal'; the key's discriminating power rests on stated, unchecked assumptions: hash(bytes)/sha1 injective, repr(treedef) separates static configuration, id(callee) identifies a live instance. 'Decorated export == undecorated export == JAX' is C01 territory and not claimed.",
         "design_ref": "DESIGN.md §4.7",
         "unverified_part": "semantic equality of shared bodies, FunctionScope.begin/end mirroring, optimizer treatment of function bodies, weak-reference liveness of instances, the numerical transparency of function boundaries.",
+    },
+    "C06": {
+        "modules": ALL_MODULES,
+        "level_text": "Partial claim: the integer and guard kernels only. scan_arity is proved for both parameter encodings (ft_in groups / legacy counts): a normal return implies num_xs >= 0 and consts + carry + xs = number of invars with the groups decoded as given, otherwise ValueError; ForiLoopPlugin._fori_loop_binding hands the primitive trip_count = max(upper - lower, 0) and the offset lower, for all integers; rejection guards (reverse scan, scan without xs and non-static length, switch with other than two branches: shared with C16) raise before anything is emitted.",
+        "level_note": "The construction of Loop/If bodies (while_loop.py, scan.py, cond.py, fori_loop._build_body_graph, _axis0_utils: about 3000 lines of builder code) is NOT under contract: zero-trip/one-trip behaviour, captured-value threading, vmapped predicates and stacked outputs are not decided. A seeded defect in the vmapped while_loop body (seeded/agent-C06) is therefore not detected by this check.",
+        "design_ref": "DESIGN.md §4.6",
+        "unverified_part": "Loop/If body construction in while_loop.py, scan.py, cond.py, fori_loop._build_body_graph (iteration offset), _axis0_utils; ONNX Loop/If semantics (A14).",
     },
 }
